@@ -55,10 +55,10 @@ def _mk(t, k, s, use_sym):
     return packet.Packet(t, data), dec
 
 
-@cond(quick=dict(S=3, timeout=150), thorough=dict(S=6, timeout=1200))
+@cond(quick=dict(S=3, timeout=170, parts=dict(KM=[0, 1, 2])), thorough=dict(S=6, timeout=1200, parts=dict(KM=[0, 1, 2])))
 def join_exact(n: int, t0: int, s0: str, k1: int, t2: int, s2: str, jsonp_none: bool) -> str:
     """
-    pre: 0 <= n <= 3 and 0 <= t0 <= 6 and 4 <= t2 <= 5 and 0 <= k1 < len(_TABLE)
+    pre: 0 <= n <= 3 and 0 <= t0 <= 6 and 4 <= t2 <= 5 and 0 <= k1 < len(_TABLE) and k1 % 3 == P.KM
     pre: len(s0) <= P.S and len(s2) <= P.S
     post: _ == ''
     """
